@@ -56,6 +56,9 @@ func runC05(c *engine.Ctx, tier string) {
 	c.Al = proposalAliases(c.P)
 	// what was validated and what is stored agree after a rollback too
 	captureLoopAs(c, "C05.8")
+	// the validated values become readable before the committed cursor says so: a retry of the commit step
+	// skips the merge once the cursor moved (C07.2), so the other order loses the validated change
+	storeWriteOrder(c, "C05.9", "")
 }
 
 // candidateDocument: C05.2 — provenance of the bytes given to the plugin.
